@@ -51,7 +51,10 @@ class Field:
     """ident: None for unnamed; ty: rust type; naming: list of ('short', None|'x') / ('long', None|'n');
     env: var or None; consumer: None | 'argument' | 'positional' | 'switch' | ('flag', a, b) | ('req_flag', v);
     metavar: for argument/positional; post: list of postprocessing annotation strings; doc: help"""
-    def __init__(self, ident, ty, naming=(), env=None, consumer=None, metavar=None, post=(), doc=None):
+    def __init__(self, ident, ty, naming=(), env=None, consumer=None, metavar=None, post=(), doc=None, doc_style=None):
+        # doc_style: None: `/// text`; "attr": `#[doc = "text"]` (what a declarative macro emits,
+        # no leading space); "tight": `///text`
+        self.doc_style = doc_style
         self.ident, self.ty, self.naming, self.env = ident, ty, list(naming), env
         self.consumer, self.metavar, self.post, self.doc = consumer, metavar, list(post), doc
 
@@ -81,7 +84,12 @@ class Field:
         s = ""
         if self.doc:
             for line in self.doc.split("\n"):
-                s += "    /// %s\n" % line if line else "    ///\n"
+                if self.doc_style == "attr":
+                    s += "    #[doc = %s]\n" % rs_str(line)
+                elif self.doc_style == "tight":
+                    s += "    ///%s\n" % line
+                else:
+                    s += "    /// %s\n" % line if line else "    ///\n"
         if parts:
             s += "    #[bpaf(%s)]\n" % ", ".join(parts)
         return s
@@ -179,6 +187,9 @@ def single_field_specs():
             anns.append(dict(naming=[("short", None), ("long", "alt"), ("long", "alias2")], doc="with aliases"))
             anns.append(dict(env="BPAFMC_DERIVE", naming=[("long", None)]))
             anns.append(dict(post=["hide"]))
+            if ident in IDENTS[:2]:
+                anns.append(dict(doc="help without a leading space", doc_style="attr"))
+                anns.append(dict(doc="help right after the slashes\nsecond line", doc_style="tight", naming=[("long", None)]))
             if shape in ("direct", "optional", "multiple"):
                 anns.append(dict(consumer="argument", metavar="META"))
                 anns.append(dict(consumer="positional"))
@@ -235,7 +246,7 @@ items = []
 def top_doc_lines(doc):
     return "".join("/// %s\n" % l if l else "///\n" for l in doc.split("\n"))
 
-MODES = ["parser", "options", "command", "command_named", "options_version", "options_usage", "options_fallback_usage", "boxed", "options_doc3", "parser_doc", "options_descr_doc", "command_doc3", "options_doc_indented", "command_doc_indented"]
+MODES = ["parser", "options", "command", "command_named", "options_version", "options_usage", "options_fallback_usage", "boxed", "options_doc3", "parser_doc", "options_descr_doc", "command_doc3", "options_doc_indented", "command_doc_indented", "options_cargo", "options_doc_attr"]
 
 def emit_struct(i, fields, mode, tuple_struct=False):
     it = Item()
@@ -247,6 +258,8 @@ def emit_struct(i, fields, mode, tuple_struct=False):
     top_attr = []
     top_doc = ""
     manual_tail = ""
+    manual_head = ""
+    top_doc_style = None
     wrap = "parser"
     if mode == "parser":
         top_attr = []
@@ -303,6 +316,19 @@ def emit_struct(i, fields, mode, tuple_struct=False):
         wrap = "command"
         top_doc = "command description\n\n\n  run [--fast]\nnothing else"
         manual_tail = '.to_options().descr("command description").header("  run [--fast]\\nnothing else").command(%s)' % rs_str(cmdname)
+    elif mode == "options_cargo":
+        # `options("name")`: a cargo sub-command, an optional leading `name` is skipped first
+        top_attr = ['options("pretty")']
+        wrap = "options"
+        manual_head = 'bpaf::batteries::cargo_helper("pretty", '
+        manual_tail = ").to_options()"
+    elif mode == "options_doc_attr":
+        # the doc attribute written out (no leading space to strip)
+        top_attr = ["options"]
+        wrap = "options"
+        top_doc = "the description\n\n\nthe header"
+        top_doc_style = "attr"
+        manual_tail = '.to_options().descr("the description").header("the header")'
     elif mode == "parser_doc":
         top_doc = "group title"
         manual_tail = '.group_help("group title")'
@@ -310,7 +336,10 @@ def emit_struct(i, fields, mode, tuple_struct=False):
         manual_tail = ".to_options()"
     top_attr.append("generate(d%d)" % i)
     src = ""
-    src += top_doc_lines(top_doc) if top_doc else ""
+    if top_doc and top_doc_style == "attr":
+        src += "".join("#[doc = %s]\n" % rs_str(l) for l in top_doc.split("\n"))
+    else:
+        src += top_doc_lines(top_doc) if top_doc else ""
     src += "#[derive(Debug, Clone, PartialEq, Bpaf)]\n#[bpaf(%s)]\n" % ", ".join(top_attr)
     if tuple_struct:
         src += "pub struct %s(\n" % ty + "".join(f.decl() for f in fields) + ");\n"
@@ -331,7 +360,7 @@ def emit_struct(i, fields, mode, tuple_struct=False):
         ret = "OptionParser<%s>" % ty
     else:
         ret = "impl Parser<%s>" % ty
-    man = "pub fn m%d() -> %s {\n%s    %s%s\n}\n" % (i, ret, lets, cons, manual_tail)
+    man = "pub fn m%d() -> %s {\n%s    %s%s%s\n}\n" % (i, ret, lets, manual_head, cons, manual_tail)
     it.manual_src = man
     it.kind = wrap
     it.descr = "%s %s [%s]" % ("tuple struct" if tuple_struct else "struct", mode, "; ".join((f.ident or "_") + ": " + f.ty + " " + f.attr().strip().replace("\n", " ") for f in fields))
@@ -358,6 +387,8 @@ def alphabet_for(fields, mode, i, cmdname=None):
         a.append(cmdname or ("t%d" % i))
     if mode == "command_named":
         a += ["renamed", "r"]
+    if mode == "options_cargo":
+        a.append("pretty")
     seen = []
     for x in a:
         if x not in seen:
@@ -482,6 +513,10 @@ for a, b in itertools.permutations(range(len(u)), 2):
     if tier == "quick" and (a * 10 + b + seed) % 2 == 1:
         continue
     emit_struct(n, [fa, fb], MODES[n % 4])
+    n += 1
+# cargo sub-commands with positional items and with named ones
+for fields in [[u[8]], [u[0], u[8]], [u[3], u[9]], [u[2]], [u[5], u[4]]]:
+    emit_struct(n, fields, "options_cargo")
     n += 1
 # tuple structs
 for fields in [[Field(None, "String")], [Field(None, "String"), Field(None, "Option<u32>")], [Field(None, "u32"), Field(None, "Vec<String>")], [Field(None, "bool", naming=[("long", "flag")]), Field(None, "String")], [Field(None, "Option<String>", naming=[("short", "o")])]]:
